@@ -97,3 +97,196 @@ def replay(payload):
         print("replayed: %s %s" % (st, json.dumps(r)[:500] if r is not None else None))
         return st == "crash" or (st == "ok" and r is not None)
     raise core.HarnessError("no replay for %s here" % prop)
+
+
+# --------------------------------------------------------------------------
+# C36: sanitizer observer
+
+ASAN_CFLAGS = ("-O1", "-g", "-fsanitize=address,undefined", "-fno-sanitize-recover=all", "-fno-omit-frame-pointer")
+
+
+def _san_lib(name):
+    return subprocess.run(["gcc", "-print-file-name=" + name], capture_output=True, text=True).stdout.strip()
+
+
+def _c36_sizes(tier):
+    return {"e3_mods": 2 if tier == "quick" else 8, "e4_mods": 2 if tier == "quick" else 8, "e5_mods": 3 if tier == "quick" else 12}
+
+
+SELFTEST_SRC = '''
+cdef extern from *:
+    """
+    #include <stdlib.h>
+    static int sim_oob(int n) { volatile char *p = (char*)malloc(8); int v = p[n]; free((void*)p); return v; }
+    static int sim_uaf(void) { volatile int *p = (int*)malloc(16); p[0] = 7; free((void*)p); return p[0]; }
+    static int sim_ovf(int a) { return a + 2147483647; }
+    """
+    int sim_oob(int n)
+    int sim_uaf()
+    int sim_ovf(int a)
+
+def oob(n):
+    return sim_oob(n)
+
+def uaf():
+    return sim_uaf()
+
+def ovf(a):
+    return sim_ovf(a)
+'''
+
+
+def _selftest_build():
+    return build.build_ext("wl36_selftest", SELFTEST_SRC, ".pyx", cflags=ASAN_CFLAGS)
+
+
+def _selftest_call(so, which):
+    m = build.load_ext("wl36_selftest", so)
+    return {"oob": lambda: m.oob(8), "uaf": m.uaf, "ovf": lambda: m.ovf(5), "ok": lambda: m.oob(3)}[which]()
+
+
+def _c36_prebuild(seed, tier):
+    """Build every sanitized workload in the UNsanitized outer process (the inner one then only hits the build cache)."""
+    from concurrent.futures import ThreadPoolExecutor
+    from . import e5_refs, e6_loops, e8_omp
+    sz = _c36_sizes(tier)
+    jobs = [lambda: e3_gen.build_modules(seed, sz["e3_mods"], 16, "asan", ASAN_CFLAGS, None),
+            lambda: e4_exc.build_modules(seed, sz["e4_mods"], 24, "asan", ASAN_CFLAGS, None),
+            lambda: e5_refs.build_modules(seed, sz["e5_mods"], 30, "asan", ASAN_CFLAGS),
+            lambda: e6_loops.build_mods([{"cell": "asan", "cflags": ASAN_CFLAGS}], tag=""),
+            lambda: e8_omp.build_module(ASAN_CFLAGS, ("-fsanitize=address,undefined",), name="wl37asan"),
+            _selftest_build]
+    with ThreadPoolExecutor(max_workers=len(jobs)) as ex:
+        for f in [ex.submit(j) for j in jobs]:
+            f.result()
+
+
+def _san_reports(logdir, since):
+    out = []
+    try:
+        names = sorted(os.listdir(logdir))
+    except OSError:
+        return out
+    for n in names:
+        p = os.path.join(logdir, n)
+        try:
+            if os.path.getmtime(p) >= since:
+                with open(p, errors="replace") as f:
+                    out.append(f.read()[:1500])
+        except OSError:
+            pass
+    return out
+
+
+def check_C36(tier):
+    prop = "C36"
+    seed = core.env_seed()
+    core.stage()
+    if os.environ.get("SIMKIT_SANITIZED") != "1":
+        asan, ubsan = _san_lib("libasan.so"), _san_lib("libubsan.so")
+        if not (os.path.isabs(asan) and os.path.exists(asan)):
+            print("HARNESS-ERROR property=C36 libasan not found")
+            return 2
+        _c36_prebuild(seed, tier)
+        logdir = os.path.join(core.workdir(), "sanlogs")
+        os.makedirs(logdir, exist_ok=True)
+        env = dict(os.environ, SIMKIT_SANITIZED="1", LD_PRELOAD=asan + ":" + ubsan, PYTHONMALLOC="malloc",
+                   ASAN_OPTIONS="detect_leaks=0:abort_on_error=1:allocator_may_return_null=1:log_path=%s/asan" % logdir,
+                   UBSAN_OPTIONS="print_stacktrace=1:halt_on_error=1:abort_on_error=1:log_path=%s/ubsan" % logdir,
+                   SIMKIT_SANLOGS=logdir)
+        r = subprocess.run([sys.executable, "-m", "simkit", "check", "C36", "--tier", tier], env=env, cwd=core.VERIF)
+        return r.returncode
+    # ---- inner, sanitized process
+    from . import e5_refs, e6_loops, e8_omp
+    logdir = os.environ.get("SIMKIT_SANLOGS", "")
+    rep = core.Report(prop, "rider:E3-E6,E8 under ASan/UBSan", tier, seed)
+    rep.rule = ("the seeded histories, fault plans, fault sweeps, loop scripts and OpenMP schedules of E3, E4, E5, E6 and E8 replayed on workloads rebuilt with "
+                "-O1 -fsanitize=address,undefined -fno-sanitize-recover=all, in an interpreter running with LD_PRELOAD=libasan:libubsan and PYTHONMALLOC=malloc; "
+                "any sanitizer abort (or other crash) in a run is a violation; behavioural differences are the host properties' business and ignored here. "
+                "non-trivial / distinct as in the host engines")
+    rep.components = {"real": ["generated C and Cython utility code compiled with ASan/UBSan instrumentation", "libasan/libubsan runtimes", "CPython (uninstrumented) on the malloc allocator"],
+                      "stub": ["as in the host engines"]}
+    rep.assumptions = ["scope is the simulated workloads of the other engines, not all differential programs", "CPython itself is not instrumented: errors inside the interpreter are only seen through the interposed allocator"]
+    budget = core.env_budget(100 if tier == "quick" else 1200)
+    sz = _c36_sizes(tier)
+    t0 = time.time()
+    crashes = []
+    # the observer must be armed: a deliberate heap overflow / use-after-free / signed overflow has to abort, a clean call must not
+    so = _selftest_build()
+    armed = {}
+    for which in ("ok", "oob", "uaf", "ovf"):
+        st, r = core.run_one_forked(_selftest_call, so, which, timeout=60)
+        armed[which] = st
+    rep.probes["selftest_clean_call_ok"] = int(armed["ok"] == "ok")
+    for which in ("oob", "uaf", "ovf"):
+        rep.probes["selftest_detects_" + which] = int(armed[which] == "crash")
+    if armed["ok"] != "ok" or any(armed[w] != "crash" for w in ("oob", "uaf", "ovf")):
+        rep.harness_errors.append("sanitizer observer is not armed: %r" % (armed,))
+
+    def note(engine, i, v, recover):
+        crashes.append((engine, i, v, recover))
+    # E3
+    viol, mods3 = e3_gen.explore(rep, seed, tier, "asan", cflags=ASAN_CFLAGS, budget=budget * 0.2, nruns=480 if tier == "quick" else None,
+                                 nmods=sz["e3_mods"], prop=prop)
+    for i, v in viol:
+        if v["klass"] == "crash":
+            cfg = {"modules": mods3, "histories_per_run": 50, "maxlen": 8 if tier == "quick" else 12}
+            h = e3_gen.recover_crash_history(seed, i, cfg, mods3) if v.get("history") is None else v["history"]
+            note("E3", i, dict(v, history=h), None)
+    # E4
+    viol, mods4, cfg4 = e4_exc.explore(rep, prop, seed, tier, "asan", cflags=ASAN_CFLAGS, budget=budget * 0.2, nmods=sz["e4_mods"],
+                                       extra_cfg={"single_cap": 40, "nmulti": 30})
+    for i, v in viol:
+        if v["klass"] == "crash":
+            if v.get("func") is None:
+                rec = e4_exc.recover_crash(seed, i, cfg4, mods4, prop)
+                if rec:
+                    v = dict(v, func=rec[0], arg=rec[1], plan=rec[2])
+            note("E4", i, v, None)
+    # E5
+    viol, mods5, cfg5 = e5_refs.explore(rep, seed, tier, "asan", cflags=ASAN_CFLAGS, budget=budget * 0.2, nmods=sz["e5_mods"], prop=prop)
+    for i, v in viol:
+        if v["klass"] == "crash":
+            mm = {m["name"]: m for m in mods5}
+            if v.get("plan") is None:
+                v = dict(v, plan=e5_refs.recover_crash_plan(mm[v["module"]], v["func"], cfg5))
+            note("E5", i, v, None)
+    # E6
+    mods6 = e6_loops.build_mods([{"cell": "asan", "cflags": ASAN_CFLAGS}], tag="")
+    cfg6 = {"modules": mods6, "cases_per_run": 200, "case_timeout_s": 120}
+    res6 = core.run_forked(e6_loops.one_run, prop, seed, range(320 if tier == "quick" else 6400), cfg6, deadline=time.time() + budget * 0.15)
+    for i, r in res6:
+        if "crash" in r:
+            note("E6", i, {"klass": "crash", "detail": {"signal": r["crash"]}, "run_index": i}, None)
+        elif "harness_error" in r:
+            rep.harness_errors.append(r["harness_error"])
+        else:
+            r.pop("violation", None)
+            rep.absorb(r)
+    # E8
+    ms8 = e8_omp.build_module(ASAN_CFLAGS, ("-fsanitize=address,undefined",), name="wl37asan")
+    cfg8 = {"module": ms8, "cases_per_run": 40, "case_timeout_s": 180}
+    res8 = core.run_forked(e8_omp.one_run, prop, seed, range(160 if tier == "quick" else 3200), cfg8, deadline=time.time() + budget * 0.15)
+    for i, r in res8:
+        if "crash" in r:
+            note("E8", i, {"klass": "crash", "detail": {"exit": r["crash"]}, "run_index": i}, None)
+        elif "harness_error" in r:
+            rep.harness_errors.append(r["harness_error"])
+        else:
+            r.pop("violation", None)
+            rep.absorb(r)
+    rep.probes["sanitizer_runtime_loaded"] = int("libasan" in os.environ.get("LD_PRELOAD", ""))
+    reports = _san_reports(logdir, t0) if logdir else []
+    rep.probes["sanitizer_report_files"] = len(reports)
+    rep.determinism = {"seeds": 0, "mismatches": 0, "note": "host engines' self-checks apply"}
+    seen = set()
+    for engine, i, v, _ in crashes:
+        key = engine
+        if key in seen:
+            continue
+        seen.add(key)
+        v = dict(v, engine_host=engine, property=prop, cflags=list(ASAN_CFLAGS), sanitizer_reports=reports[:3])
+        rep.violation("sanitizer abort or crash in %s workload (run %s): %s" % (engine, i, (reports[0][:200].replace("\n", " ") if reports else json.dumps(v.get("detail")))),
+                      dict(v, seed=seed, run_index=i))
+    rep.extra["clock"] = "none"
+    return rep.finish()
